@@ -42,7 +42,7 @@ class Interp:
         return self.frames[-1]
 
     def raise_py(self, cls, *args):
-        raise PyRaise(VExc(cls, args))
+        raise PyRaise(VExc(cls, args, implicit=True))
 
     def truthy(self, v):
         ctx = self.ctx
@@ -110,6 +110,9 @@ class Interp:
     def run_frame(self, fr, node):
         self.frames.append(fr)
         self.ctx.fn_stack.append(fr.fn_name)
+        loops = sorted((n for n in self.walk_own(node) if isinstance(n, (ast.For, ast.While))),
+                       key=lambda n: (n.lineno, n.col_offset))
+        fr.loop_ids = {id(n): i + 1 for i, n in enumerate(loops)}
         try:
             if isinstance(node, ast.Lambda):
                 return self.eval(node.body)
@@ -386,7 +389,12 @@ class Interp:
 
     # -------- loops
     def loop_spec(self, s):
-        self.fr.loop_no += 1
+        # loop ordinal = position among the function's own loops in source order (static)
+        ids = getattr(self.fr, 'loop_ids', None)
+        if ids is None or id(s) not in ids:
+            self.fr.loop_no += 1
+        else:
+            self.fr.loop_no = ids[id(s)]
         c = self.fr.contract
         if c is not None and self.fr.loop_no in c.loops:
             return c.loops[self.fr.loop_no]
@@ -487,6 +495,8 @@ class Interp:
         for (s, so), a in zip(ty.comps(), arrs):
             if isinstance(ref, str) and ref == '*':
                 ctx.heap[key + s] = ctx.fresh('Hh:' + key + s, z3.ArraySort(IntSort, so))
+                if getattr(self, 'havoc_log', None) is not None:
+                    self.havoc_log[ctx.heap[key + s].get_id()] = (ctx.heap[key + s], key + s)
             else:
                 ctx.heap[key + s] = z3.Store(a, ref.term, ctx.fresh('hf:' + key + s, so))
 
@@ -514,7 +524,8 @@ class Interp:
         if spec is None:
             raise OutOfSubset('for loop #%d in %s over a symbolic sequence without invariant'
                               % (no, self.fr.fn_name))
-        lst = self.as_list(it)
+        enum = isinstance(it, VEnum)
+        lst = self.as_list(it.lst if enum else it)
         kname = spec.ghost_index or '_k%d' % no
         self.fr.locals[kname] = VInt(0)
         self.fr.locals['_seq%d' % no] = lst
@@ -524,7 +535,8 @@ class Interp:
 
         def pre_body():
             k = self.fr.locals[kname]
-            self.assign(s.target, self.list_nth(lst, k.term))
+            item = self.list_nth(lst, k.term)
+            self.assign(s.target, VTuple([VInt(k.term), item]) if enum else item)
             self.fr.locals[kname] = VInt(k.term + 1)
 
         spec2 = LoopSpec(
@@ -564,7 +576,15 @@ class Interp:
 
     # -------- list primitives (value semantic Seq)
     def list_nth(self, lst, idx):
-        return self.ctx.load(lst.t.wrap([z3.simplify(q[idx]) for q in lst.seqs]))
+        view = getattr(lst, 'view', None)
+        if view is not None:
+            # the list is a window of a parent sequence: read through (same element, simpler term)
+            parent, off = view
+            terms = [q[z3.simplify(off + idx)] for q in parent]
+            for q, t in zip(lst.seqs, terms):
+                self.ctx.assume(z3.Implies(z3.And(idx >= 0, idx < z3.Length(q)), q[idx] == t))
+            return self.ctx.load(lst.t.wrap(terms))
+        return self.ctx.load(lst.t.wrap([q[idx] for q in lst.seqs]))
 
     def list_index(self, lst, i):
         n = lst.length()
@@ -629,7 +649,7 @@ class Interp:
         if not items:
             return VEmptyList()
         if all(isinstance(i, VBytes) for i in items):
-            return VChunks(S.concat([i.term for i in items]))
+            return VChunks(S.concat([i.term for i in items]), items=[i.term for i in items])
         t0 = items[0].T
         if t0 is not None and all(repr(i.T) == repr(t0) for i in items):
             try:
@@ -765,6 +785,11 @@ class Interp:
             if isinstance(a, VOpaque) and isinstance(b, (VStr, VOpaque)): return VOpaque('concat')
             if isinstance(b, VOpaque) and isinstance(a, (VStr, VOpaque)): return VOpaque('concat')
             if isinstance(a, VTuple) and isinstance(b, VTuple): return VTuple(a.items + b.items)
+            if isinstance(a, VList) and isinstance(b, VChunks) and b.items is not None and len(a.seqs) == 1:
+                return VList(a.t, [z3.Concat(a.seqs[0], *[z3.Unit(t) for t in b.items])])
+            if isinstance(a, VList) and isinstance(b, VList) and repr(a.t) == repr(b.t):
+                return VList(a.t, [z3.Concat(x, y) for x, y in zip(a.seqs, b.seqs)])
+            if isinstance(a, VList) and isinstance(b, VEmptyList): return VList(a.t, list(a.seqs))
             if isinstance(a, (VStr, VBytes)) and isinstance(b, (VStr, VBytes, VInt, VNone)):
                 self.raise_py(TypeError)
             if isinstance(a, (VInt,)) and isinstance(b, (VStr, VBytes, VNone)):
@@ -903,6 +928,9 @@ class Interp:
             owner, ty = w.field(obj.cls, name)
             if owner is not None:
                 return self.ctx.heap_read(obj, name)
+            stub = w.method(obj.cls, name)
+            if stub is not None:
+                return VFunc(stub, obj)
             live = self.live_class(obj.cls)
             if live is not None and hasattr(live, name):
                 a = inspect.getattr_static(live, name)
@@ -982,7 +1010,7 @@ class Interp:
             _, lo, hi, step = idx
             if step is not None:
                 raise OutOfSubset('slice step')
-            if (isinstance(obj, VStr) and not isinstance(obj, VLazySuffix) and hi is None and lo is not None
+            if (S.REGULAR_MODE and isinstance(obj, VStr) and not isinstance(obj, VLazySuffix) and hi is None and lo is not None
                     and self.is_concrete_int(lo) and self.concrete_int(lo) >= 0 and S.regular_var(obj.term)):
                 return VLazySuffix(ctx, obj.term, self.concrete_int(lo))
             if isinstance(obj, (VStr, VBytes)):
@@ -1141,9 +1169,11 @@ class Interp:
                 ctx.oblige('%s/stack-depth' % site, z3.And(c.depth[0](cx) >= 0, c.depth[0](cx) < fr0.depth0), kind='depth')
             elif c.decreases is None:
                 ctx.oblige('%s/recursion-without-measure' % site, z3.BoolVal(False), kind='depth')
+        self.havoc_log = {}
         if c.modifies:
             for ref, fld in c.modifies(cx):
                 self.havoc_field(ref, fld)
+        havocs, self.havoc_log = self.havoc_log, None
         result = None
         if c.result is not None:
             result = ctx.fresh_of('ret_' + c.name.split('.')[-1], c.result)
@@ -1160,15 +1190,61 @@ class Interp:
                 # normal return excludes the conditions under which an exception is mandatory
                 pass
             if c.ensures:
-                for nm, g in c.ensures(cx2):
-                    ctx.assume(g)
+                self.assume_post([g for nm, g in c.ensures(cx2)], havocs)
             return result
         ecls, when = excs[k - 1]
         ctx.assume(when(cx2))
         if ecls in c.raises_post:
-            for nm, g in c.raises_post[ecls](cx2):
-                ctx.assume(g)
+            self.assume_post([g for nm, g in c.raises_post[ecls](cx2)], havocs)
         raise PyRaise(VExc(ecls, []))
+
+    def assume_post(self, clauses, havocs):
+        """Assume a callee's postcondition.  A top-level conjunct `H == T` whose left side is an array
+        constant just introduced by the whole-field havoc of this call is applied as a definition
+        (heap[field] := T) instead of being assumed: later reads then resolve syntactically and no
+        array equation reaches the solver."""
+        ctx = self.ctx
+        todo = list(clauses)
+        while todo:
+            g = todo.pop(0)
+            if z3.is_app(g):
+                k = g.decl().kind()
+                if k == z3.Z3_OP_AND:
+                    todo = list(g.children()) + todo
+                    continue
+                if k == z3.Z3_OP_IMPLIES:
+                    gd = z3.simplify(g.arg(0))
+                    if z3.is_true(gd):
+                        todo.insert(0, g.arg(1))
+                        continue
+                    if z3.is_false(gd):
+                        continue
+                if k == z3.Z3_OP_EQ and havocs:
+                    a, b = g.arg(0), g.arg(1)
+                    for x, y in ((a, b), (b, a)):
+                        h = havocs.get(x.get_id())
+                        if h is not None and h[0].eq(x) and ctx.heap.get(h[1]) is not None and ctx.heap[h[1]].eq(x) \
+                                and x.get_id() not in {t.get_id() for t in self.subterm_consts(y)}:
+                            ctx.heap[h[1]] = y
+                            del havocs[x.get_id()]
+                            g = None
+                            break
+                    if g is None:
+                        continue
+            ctx.assume(g)
+
+    @staticmethod
+    def subterm_consts(t):
+        out, todo, seen = [], [t], set()
+        while todo:
+            x = todo.pop()
+            if x.get_id() in seen:
+                continue
+            seen.add(x.get_id())
+            if z3.is_const(x):
+                out.append(x)
+            todo.extend(x.children())
+        return out
 
     def conform_args(self, c, loc):
         out = {}
